@@ -355,6 +355,7 @@ pub fn run_program(lines: &[String], ctx: &mut Ctx) {
         };
         i = j;
     }
+    crate::exec::inflight_done();
 }
 
 /// seeded history: build/use phase (keepers of connected nodes stay), hand-off phase (keepers may go,
